@@ -4,6 +4,7 @@
 
 #include "gds_peer.hpp"
 #include "gen.hpp"
+#include "oas_peer.hpp"
 #include "json.hpp"
 #include "sim.hpp"
 
@@ -187,6 +188,93 @@ inline model::MLib gds_model(Rng& r, int max_cells = 5, int max_elems = 8) {
     cfg.max_vertices = 24;
     cfg.simple_polys_only = false;
     return gdsify(gen::library(r, cfg));
+}
+
+
+// ------------------------------------------------------------------------------------------- OASIS data model
+// Projects a model onto what an OASIS file holds: integer grid coordinates, by-name references.
+inline model::MLib oasify(const model::MLib& in) {
+    using model::Pt;
+    model::MLib m = in;
+    m.unit = 1e-6;
+    auto g10 = [](model::dg_t v) { return canon::rgrid(v) * 10; };
+    auto snap_rep = [&](model::MRep& r) {
+        r.sp = Pt{g10(r.sp.x), g10(r.sp.y)};
+        r.v1 = Pt{g10(r.v1.x), g10(r.v1.y)};
+        r.v2 = Pt{g10(r.v2.x), g10(r.v2.y)};
+        for (auto& o : r.offs) o = Pt{g10(o.x), g10(o.y)};
+        for (auto& c : r.coords) c = g10(c);
+    };
+    m.ext_cells.clear();
+    for (auto& c : m.cells) {
+        std::vector<model::MPoly> polys;
+        for (auto& p : c.polys) {
+            if (p.hint == 1) {
+                p.ccenter = Pt{g10(p.ccenter.x), g10(p.ccenter.y)};
+                p.cradius = g10(p.cradius);
+                if (p.cradius < 30) p.cradius = 30;
+                p.pts.clear();
+                for (int i = 0; i < 128; i++)
+                    p.pts.push_back(Pt{p.ccenter.x + g10((model::dg_t)llround(p.cradius * cos(2 * M_PI * i / 128))),
+                                       p.ccenter.y + g10((model::dg_t)llround(p.cradius * sin(2 * M_PI * i / 128)))});
+            } else {
+                std::vector<canon::IPt> ip;
+                for (auto& q : p.pts) ip.push_back(canon::rgrid(q));
+                canon::dedup(ip, true);
+                if (ip.size() < 3) continue;
+                p.pts.clear();
+                for (auto& v : ip) p.pts.push_back(Pt{v.x * 10, v.y * 10});
+            }
+            snap_rep(p.rep);
+            polys.push_back(p);
+        }
+        c.polys.swap(polys);
+        std::vector<model::MPath> paths;
+        for (auto& p : c.paths) {
+            if (!p.simple) continue;
+            std::vector<canon::IPt> ip;
+            for (auto& q : p.spine) ip.push_back(canon::rgrid(q));
+            canon::dedup(ip, false);
+            if (ip.size() < 2) continue;
+            p.spine.clear();
+            for (auto& v : ip) p.spine.push_back(Pt{v.x * 10, v.y * 10});
+            p.hw = g10(p.hw);
+            p.eu = g10(p.eu);
+            p.ev = g10(p.ev);
+            if (p.end == model::END_ROUND || p.end == model::END_SMOOTH) p.end = model::END_FLUSH;
+            p.scale_width = true;
+            p.impl = 0;
+            snap_rep(p.rep);
+            paths.push_back(p);
+        }
+        c.paths.swap(paths);
+        for (auto& l : c.labels) {
+            l.origin = Pt{g10(l.origin.x), g10(l.origin.y)};
+            l.anchor = 8;
+            l.rot_deg = 0;
+            l.mag = 1;
+            l.xrefl = false;
+            snap_rep(l.rep);
+        }
+        for (auto& r : c.refs) {
+            r.how = 1;
+            r.origin = Pt{g10(r.origin.x), g10(r.origin.y)};
+            snap_rep(r.rep);
+        }
+    }
+    return m;
+}
+
+inline model::MLib oas_model(Rng& r, int max_cells = 5, int max_elems = 8) {
+    gen::Cfg cfg;
+    cfg.mode = canon::OAS;
+    cfg.max_cells = max_cells;
+    cfg.max_elems = max_elems;
+    cfg.max_vertices = 24;
+    cfg.simple_polys_only = true;
+    cfg.dangling = r.chance(0.3);
+    cfg.force_ongrid = true;
+    return oasify(gen::library(r, cfg));
 }
 
 // ------------------------------------------------------------------------------------------- C18
@@ -987,12 +1075,94 @@ inline J plan_c02(uint64_t verif_seed, uint64_t index, int tier) {
     return plan;
 }
 
+// ------------------------------------------------------------------------------------------- C04
+inline J plan_c04(uint64_t verif_seed, uint64_t index, int tier) {
+    uint64_t rs = run_seed(verif_seed, index);
+    Rng root(rs);
+    Rng rm = root.fork(S_MODEL), rc = root.fork(S_CHOICES), rsch = root.fork(S_SCHED), re = root.fork(S_ENV), ro = root.fork(S_OPT);
+    J plan = J::obj();
+    plan.set("prop", "C04");
+    plan.set("seed", J::hex(rs));
+    plan.set("index", (int64_t)index);
+    plan.set("heap_seed", J::hex(re.next()));
+    plan.set("clock", random_clock(re));
+    J ops = J::arr();
+    ops.push(knobs_op(re, 2, 6));
+    J models = J::arr();
+    bool dir1 = ro.chance(0.6);
+    if (dir1) {
+        model::MLib m = oas_model(rm, (int)ro.range(1, 6), (int)ro.range(1, tier ? 14 : 9));
+        models.push(model::to_json(m));
+        J p = op("peer_oas");
+        p.set("model", 0);
+        p.set("file", "/sim/p.oas");
+        p.set("choices", oaspeer::to_json(oaspeer::random_choices(rc)));
+        ops.push(p);
+        int loads = (int)rsch.range(1, 2);
+        for (int i = 0; i < loads; i++) {
+            J l = op("load_check_oas");
+            l.set("file", "/sim/p.oas");
+            J e = J::obj();
+            e.set("model", 0);
+            l.set("expect", e);
+            if (rsch.chance(0.25)) {
+                static const double units[] = {1e-6, 1e-9, 1e-3, 2.5e-7};
+                l.set("unit", units[rsch.below(4)]);
+            }
+            ops.push(l);
+            if (rsch.chance(0.3)) ops.push(knobs_op(re, 2, 6));
+        }
+        if (rsch.chance(0.5)) {
+            J v = op("validate_check");
+            v.set("file", "/sim/p.oas");
+            ops.push(v);
+        }
+    } else {
+        gen::Cfg cfg;
+        cfg.mode = canon::OAS;
+        cfg.max_cells = (int)ro.range(1, 6);
+        cfg.max_elems = (int)ro.range(1, tier ? 14 : 9);
+        cfg.max_vertices = (int)ro.range(4, 40);
+        cfg.robust_paths = ro.chance(0.3);
+        cfg.long_strings = ro.chance(0.2);
+        cfg.simple_polys_only = true;
+        cfg.dangling = ro.chance(0.3);
+        cfg.force_ongrid = true;  // the file's statements about itself are compared with what the file holds
+        model::MLib m = gen::library(rm, cfg);
+        models.push(model::to_json(m));
+        uint64_t combo = (index * 2654435761ULL + (verif_seed % 5120)) % 5120;
+        int64_t flags = (int64_t)(combo % 256), level = (int64_t)((combo / 256) % 10);
+        double tol = (combo / 2560) ? 0.01 * (m.precision / m.unit) * (double)ro.range(1, 200) : 0.0;
+        J s = op("save_oas");
+        s.set("model", 0);
+        s.set("file", "/sim/w.oas");
+        s.set("flags", flags);
+        s.set("level", level);
+        s.set("tol", tol);
+        ops.push(s);
+        J pc = op("peer_check_oas");
+        pc.set("file", "/sim/w.oas");
+        J e = J::obj();
+        e.set("model", 0);
+        pc.set("expect", e);
+        pc.set("circle_tol", tol);
+        pc.set("level_class", level == 0 ? 0 : 1);
+        ops.push(pc);
+    }
+    (void)rc;
+    (void)rsch;
+    plan.set("models", models);
+    plan.set("ops", ops);
+    return plan;
+}
+
 inline J make_plan(const std::string& prop, uint64_t verif_seed, uint64_t index, int tier) {
     if (prop == "C18") return plan_c18(verif_seed, index, tier);
     if (prop == "C01") return plan_c01(verif_seed, index, tier);
     if (prop == "C03") return plan_c03(verif_seed, index, tier);
     if (prop == "C17") return plan_c17(verif_seed, index, tier);
     if (prop == "C02") return plan_c02(verif_seed, index, tier);
+    if (prop == "C04") return plan_c04(verif_seed, index, tier);
     return J();
 }
 
